@@ -1,0 +1,381 @@
+//! Verification hooks. Compiled only with `--cfg transparencies_stretto_verif`;
+//! nothing in here exists in an ordinary build.
+//!
+//! * named yield points (same-thread interposition / schedule perturbation),
+//! * an observer for the eviction loop of the policy,
+//! * worker start/exit counters,
+//! * read-only snapshot types,
+//! * thin facades over the crate-private estimators (count-min sketch, TinyLFU,
+//!   bloom filter) and over a parked (manually stepped) policy.
+use std::cell::{Cell, RefCell};
+use std::hash::BuildHasher;
+use std::sync::atomic::{AtomicUsize, Ordering};
+use std::sync::{Arc, RwLock};
+use std::time::{Duration, SystemTime};
+
+#[cfg(feature = "async")]
+pub use crate::cache::AsyncParkedProcessor;
+#[cfg(feature = "sync")]
+pub use crate::cache::ParkedProcessor;
+
+// ---------------------------------------------------------------------------------------------
+// yield points
+// ---------------------------------------------------------------------------------------------
+
+type ThreadHook = Box<dyn FnMut(&'static str)>;
+type GlobalHook = Arc<dyn Fn(&'static str) + Send + Sync>;
+
+thread_local! {
+    static THREAD_HOOK: RefCell<Option<ThreadHook>> = const { RefCell::new(None) };
+    static EVICT_RECORD: Cell<bool> = const { Cell::new(false) };
+    static EVICT_ROUNDS: RefCell<Vec<EvictRound>> = const { RefCell::new(Vec::new()) };
+}
+
+static GLOBAL_HOOK: RwLock<Option<GlobalHook>> = RwLock::new(None);
+static GLOBAL_HOOK_SET: AtomicUsize = AtomicUsize::new(0);
+
+/// Called by the instrumented code at lock-free places. Runs the thread-local hook if one is
+/// installed (the hook is taken out while it runs, so nested yield points are inert), otherwise the
+/// global hook if any.
+#[inline]
+pub fn yield_point(id: &'static str) {
+    let taken = THREAD_HOOK.with(|h| h.try_borrow_mut().ok().and_then(|mut h| h.take()));
+    if let Some(mut hook) = taken {
+        hook(id);
+        THREAD_HOOK.with(|h| {
+            let mut h = h.borrow_mut();
+            if h.is_none() {
+                *h = Some(hook);
+            }
+        });
+        return;
+    }
+    if GLOBAL_HOOK_SET.load(Ordering::Relaxed) != 0 {
+        let g = GLOBAL_HOOK.read().unwrap().clone();
+        if let Some(g) = g {
+            g(id);
+        }
+    }
+}
+
+/// Install (or remove) the hook of the calling thread.
+pub fn set_thread_yield_hook(hook: Option<ThreadHook>) {
+    THREAD_HOOK.with(|h| *h.borrow_mut() = hook);
+}
+
+/// Install (or remove) the process-wide fallback hook.
+pub fn set_global_yield_hook(hook: Option<GlobalHook>) {
+    let mut g = GLOBAL_HOOK.write().unwrap();
+    GLOBAL_HOOK_SET.store(hook.is_some() as usize, Ordering::SeqCst);
+    *g = hook;
+}
+
+// ---------------------------------------------------------------------------------------------
+// eviction observer
+// ---------------------------------------------------------------------------------------------
+
+/// One round of the eviction loop in the policy's `add`.
+#[derive(Clone, Debug, PartialEq, Eq)]
+pub struct EvictRound {
+    /// incoming key
+    pub key: u64,
+    /// cost of the incoming item
+    pub cost: i64,
+    /// estimate of the incoming key
+    pub inc_hits: i64,
+    /// sampled candidates: (key, cost, estimate)
+    pub sample: Vec<(u64, i64, i64)>,
+    /// key the loop chose as minimum
+    pub min_key: u64,
+    /// its estimate
+    pub min_hits: i64,
+    /// room (negative: lacking) at the start of this round
+    pub room: i64,
+    /// number of charged keys at the start of this round
+    pub residents: usize,
+}
+
+/// Switch the recording of eviction rounds on the calling thread on or off.
+pub fn evict_record(on: bool) {
+    EVICT_RECORD.with(|r| r.set(on));
+    if !on {
+        EVICT_ROUNDS.with(|r| r.borrow_mut().clear());
+    }
+}
+
+/// Take the rounds recorded on this thread since the last call.
+pub fn evict_rounds_take() -> Vec<EvictRound> {
+    EVICT_ROUNDS.with(|r| std::mem::take(&mut *r.borrow_mut()))
+}
+
+#[inline]
+pub(crate) fn evict_recording() -> bool {
+    EVICT_RECORD.with(|r| r.get())
+}
+
+pub(crate) fn observe_evict_round(round: EvictRound) {
+    EVICT_ROUNDS.with(|r| r.borrow_mut().push(round));
+}
+
+// ---------------------------------------------------------------------------------------------
+// worker accounting
+// ---------------------------------------------------------------------------------------------
+
+static WORKERS_STARTED: AtomicUsize = AtomicUsize::new(0);
+static WORKERS_EXITED: AtomicUsize = AtomicUsize::new(0);
+static POLICY_BATCHES: AtomicUsize = AtomicUsize::new(0);
+
+/// Lives inside every background processor; its drop (normal return or unwinding) is counted.
+pub(crate) struct WorkerGuard(());
+
+impl WorkerGuard {
+    pub(crate) fn new() -> Self {
+        WORKERS_STARTED.fetch_add(1, Ordering::SeqCst);
+        WorkerGuard(())
+    }
+}
+
+impl Drop for WorkerGuard {
+    fn drop(&mut self) {
+        WORKERS_EXITED.fetch_add(1, Ordering::SeqCst);
+    }
+}
+
+/// (processors constructed, processors dropped) in this process.
+pub fn workers() -> (usize, usize) {
+    (
+        WORKERS_STARTED.load(Ordering::SeqCst),
+        WORKERS_EXITED.load(Ordering::SeqCst),
+    )
+}
+
+pub(crate) fn policy_batch_done() {
+    POLICY_BATCHES.fetch_add(1, Ordering::SeqCst);
+}
+
+/// number of lookup batches applied by policy workers in this process.
+pub fn policy_batches() -> usize {
+    POLICY_BATCHES.load(Ordering::SeqCst)
+}
+
+// ---------------------------------------------------------------------------------------------
+// snapshots
+// ---------------------------------------------------------------------------------------------
+
+/// One resident entry of the store.
+#[derive(Clone, Debug)]
+pub struct StoreEntry<V> {
+    /// index hash
+    pub index: u64,
+    /// conflict hash
+    pub conflict: u64,
+    /// the value
+    pub value: V,
+    /// ttl (zero: none)
+    pub ttl: Duration,
+    /// creation time of the expiration record
+    pub created_at: SystemTime,
+}
+
+/// Read-only picture of a cache.
+#[derive(Clone, Debug)]
+pub struct Snapshot<V> {
+    /// resident entries, sorted by index
+    pub entries: Vec<StoreEntry<V>>,
+    /// per-key charges, sorted by key
+    pub costs: Vec<(u64, i64)>,
+    /// the policy's running total
+    pub used: i64,
+    /// the policy's max cost
+    pub max_cost: i64,
+    /// expiration buckets: bucket number -> (key, conflict), both sorted
+    pub buckets: Vec<(i64, Vec<(u64, u64)>)>,
+    /// store.len()
+    pub len: usize,
+}
+
+// ---------------------------------------------------------------------------------------------
+// estimator facades
+// ---------------------------------------------------------------------------------------------
+
+/// Facade over the count-min sketch.
+pub struct Sketch(crate::sketch::CountMinSketch);
+
+impl Sketch {
+    /// see `CountMinSketch::new`
+    pub fn new(ctrs: u64) -> Result<Self, crate::CacheError> {
+        crate::sketch::CountMinSketch::new(ctrs).map(Sketch)
+    }
+    /// record
+    pub fn increment(&mut self, h: u64) {
+        self.0.increment(h)
+    }
+    /// estimate
+    pub fn estimate(&self, h: u64) -> i64 {
+        self.0.estimate(h)
+    }
+    /// halve
+    pub fn reset(&mut self) {
+        self.0.reset()
+    }
+    /// zero
+    pub fn clear(&mut self) {
+        self.0.clear()
+    }
+    /// (seeds, mask)
+    pub fn params(&self) -> ([u64; 4], u64) {
+        self.0.verif_params()
+    }
+}
+
+/// Facade over TinyLFU.
+pub struct TinyLfu(crate::policy::TinyLFU);
+
+impl TinyLfu {
+    /// see `TinyLFU::new`
+    pub fn new(num_ctrs: usize) -> Result<Self, crate::CacheError> {
+        crate::policy::TinyLFU::new(num_ctrs).map(TinyLfu)
+    }
+    /// record one access
+    pub fn increment(&mut self, h: u64) {
+        self.0.increment(h)
+    }
+    /// record a batch
+    pub fn increments(&mut self, hs: Vec<u64>) {
+        self.0.increments(hs)
+    }
+    /// estimate
+    pub fn estimate(&self, h: u64) -> i64 {
+        self.0.estimate(h)
+    }
+    /// zero everything
+    pub fn clear(&mut self) {
+        self.0.clear()
+    }
+    /// (accesses recorded since the last reset, window length)
+    pub fn window(&self) -> (usize, usize) {
+        self.0.verif_window()
+    }
+}
+
+/// Facade over the bloom filter.
+pub struct Bloom(crate::bbloom::Bloom);
+
+impl Bloom {
+    /// see `Bloom::new`
+    pub fn new(cap: usize, rate: f64) -> Self {
+        Bloom(crate::bbloom::Bloom::new(cap, rate))
+    }
+    /// add
+    pub fn add(&mut self, h: u64) {
+        self.0.add(h)
+    }
+    /// membership
+    pub fn contains(&self, h: u64) -> bool {
+        self.0.contains(h)
+    }
+    /// add if absent; true if it was added
+    pub fn contains_or_add(&mut self, h: u64) -> bool {
+        self.0.contains_or_add(h)
+    }
+    /// empty
+    pub fn reset(&mut self) {
+        self.0.reset()
+    }
+    /// empty
+    pub fn clear(&mut self) {
+        self.0.clear()
+    }
+    /// (number of bits, number of probe locations)
+    pub fn params(&self) -> (u64, u64) {
+        self.0.verif_params()
+    }
+}
+
+// ---------------------------------------------------------------------------------------------
+// parked policy
+// ---------------------------------------------------------------------------------------------
+
+/// A policy whose worker is not spawned: lookups batches are applied by `step`.
+#[cfg(feature = "sync")]
+pub struct Policy<S: BuildHasher + Clone + 'static> {
+    policy: crate::policy::LFUPolicy<S>,
+    worker: crate::policy::PolicyProcessor<S>,
+}
+
+/// Result of `Policy::add`: (victims as (key, cost), admitted).
+pub type AddResult = (Option<Vec<(u64, i64)>>, bool);
+
+#[cfg(feature = "sync")]
+impl<S: BuildHasher + Clone + 'static> Policy<S> {
+    /// build a parked policy
+    pub fn new(ctrs: usize, max_cost: i64, hasher: S) -> Result<Self, crate::CacheError> {
+        let (policy, worker) =
+            crate::policy::LFUPolicy::verif_with_hasher_parked(ctrs, max_cost, hasher)?;
+        Ok(Self { policy, worker })
+    }
+    /// `LFUPolicy::add`
+    pub fn add(&self, key: u64, cost: i64) -> AddResult {
+        let (v, added) = self.policy.add(key, cost);
+        (
+            v.map(|v| v.into_iter().map(|p| (p.key, p.cost)).collect()),
+            added,
+        )
+    }
+    /// `LFUPolicy::update`
+    pub fn update(&self, key: u64, cost: i64) {
+        self.policy.update(&key, cost)
+    }
+    /// `LFUPolicy::remove`
+    pub fn remove(&self, key: u64) {
+        self.policy.remove(&key)
+    }
+    /// `LFUPolicy::contains`
+    pub fn contains(&self, key: u64) -> bool {
+        self.policy.contains(&key)
+    }
+    /// `LFUPolicy::cost`
+    pub fn cost(&self, key: u64) -> i64 {
+        self.policy.cost(&key)
+    }
+    /// `LFUPolicy::cap`
+    pub fn cap(&self) -> i64 {
+        self.policy.cap()
+    }
+    /// `LFUPolicy::clear`
+    pub fn clear(&self) {
+        self.policy.clear()
+    }
+    /// `LFUPolicy::max_cost`
+    pub fn max_cost(&self) -> i64 {
+        self.policy.max_cost()
+    }
+    /// `LFUPolicy::update_max_cost`
+    pub fn update_max_cost(&self, m: i64) {
+        self.policy.update_max_cost(m)
+    }
+    /// `LFUPolicy::push`
+    pub fn push(&self, keys: Vec<u64>) -> Result<bool, crate::CacheError> {
+        self.policy.push(keys)
+    }
+    /// apply one queued batch; false if the queue was empty
+    pub fn step(&self) -> bool {
+        self.worker.verif_step()
+    }
+    /// queued batches
+    pub fn pending(&self) -> usize {
+        self.worker.verif_pending()
+    }
+    /// TinyLFU estimate
+    pub fn estimate(&self, key: u64) -> i64 {
+        self.policy.inner.lock().verif_estimate(key)
+    }
+    /// (sorted (key, cost), used, max_cost)
+    pub fn costs(&self) -> (Vec<(u64, i64)>, i64, i64) {
+        self.policy.inner.lock().verif_costs()
+    }
+    /// iteration order of the cost table (what `fill_sample` walks)
+    pub fn sample_order(&self) -> Vec<u64> {
+        self.policy.inner.lock().verif_sample_order()
+    }
+}
